@@ -323,6 +323,9 @@ M("C18", GA, """            data = {bits: coeff for bits, coeff in data.items()
 
 M("C16", "pymbolic/mapper/unifier.py", """            expr, other, unis, _make_regrouper(Product)))""", """            expr, other, unis, __import__("pymbolic").primitives.flattened_product))""", "revert of fix 4f1d12c (leftover product operands simplified away)")
 M("C16", "pymbolic/mapper/unifier.py", """            expr, other, unis, _make_regrouper(Sum)))""", """            expr, other, unis, __import__("pymbolic").primitives.flattened_sum))""", "revert of fix 4f1d12c (leftover sum operands simplified away)")
+M("C13", "pymbolic/interop/ast.py", """        elif ((isinstance(expr, (int, float)) and expr < 0)
+                or (isinstance(expr, (float, complex))
+                    and repr(expr).startswith("-"))):""", """        elif isinstance(expr, (int, float)) and expr < 0:""", "revert of fix 261077d (negative zero / imaginary constants under a power)")
 AL = "pymbolic/algorithm.py"
 M("C19", "pymbolic/algorithm.py", """            aux = aux * x""", """            aux *= x""", "revert of fix 9cda97f (identity element multiplied in place)")
 M("C19", "pymbolic/rational.py", """            numerator //= d_unit
